@@ -28,8 +28,8 @@ gives the same map up to the order of its entries).  The implementation's order 
 at the end of this file (`cmpKey`); the driver prints maps in that order and the correspondence compares
 them with the implementation's iteration order.  What the MAP models of the locations is key IDENTITY:
 an argument value that embeds source locations (a non-empty object or list literal) carries the identity
-of its source occurrence (`LArg.site`), and two keys are equal only if these agree — as in the
-implementation.
+of its source occurrence (`LV.object site …`, `LV.list site …`), and two keys are equal only if these agree — as
+in the implementation.
 
 Outcomes that are panics in Rust are explicit: `Payload.panic` entries.
 Not modelled: refetch-path bookkeeping (`ScalarClientFieldTraversalState`), the separate maps of `@loadable`
@@ -95,14 +95,165 @@ def keyLt : Key → Key → Bool := lexLt natLt
 
 def pathLt : List Key → List Key → Bool := lexLt keyLt
 
+/-! ### located values
+
+`NonConstantValue`: a value in which every item of a list and every field name and field value of an object
+carries a source location.  Those locations take part in equality and order of normalization keys.  All the
+locations of one list / object node are determined by the source OCCURRENCE the node was written in, so a
+node carries the identity of that occurrence (`site`; `[]` for an empty node, which has no locations).
+Substitution (`substitute_variables`) replaces variables at any depth and keeps every node's own site, so
+one value can mix nodes of several occurrences. -/
+
+inductive LV where
+  | int (i : Int)
+  | float (lexeme : String)
+  | bool (b : Bool)
+  | null
+  | enum (name : String)
+  | str (raw : String)
+  | var (name : String)
+  | object (site : List Nat) (fields : List (String × LV))
+  | list (site : List Nat) (items : List LV)
+  deriving Repr, Inhabited
+
+namespace LV
+
+mutual
+def beq : LV → LV → Bool
+  | .int a, .int b => a == b
+  | .float a, .float b => a == b
+  | .bool a, .bool b => a == b
+  | .null, .null => true
+  | .enum a, .enum b => a == b
+  | .str a, .str b => a == b
+  | .var a, .var b => a == b
+  | .object s a, .object s' b => s == s' && beqFields a b
+  | .list s a, .list s' b => s == s' && beqList a b
+  | _, _ => false
+def beqFields : List (String × LV) → List (String × LV) → Bool
+  | [], [] => true
+  | (k, v) :: r, (k', v') :: r' => k == k' && beq v v' && beqFields r r'
+  | _, _ => false
+def beqList : List LV → List LV → Bool
+  | [], [] => true
+  | v :: r, v' :: r' => beq v v' && beqList r r'
+  | _, _ => false
+end
+
+mutual
+theorem eq_of_beq : ∀ (a b : LV), beq a b = true → a = b
+  | .int a, .int b, h => by simp [beq] at h; simp [h]
+  | .float a, .float b, h => by simp [beq] at h; simp [h]
+  | .bool a, .bool b, h => by simp [beq] at h; simp [h]
+  | .null, .null, _ => rfl
+  | .enum a, .enum b, h => by simp [beq] at h; simp [h]
+  | .str a, .str b, h => by simp [beq] at h; simp [h]
+  | .var a, .var b, h => by simp [beq] at h; simp [h]
+  | .object s a, .object s' b, h => by simp [beq] at h; rw [h.1, eq_of_beqFields a b h.2]
+  | .list s a, .list s' b, h => by simp [beq] at h; rw [h.1, eq_of_beqList a b h.2]
+  | .int _, .float _, h | .int _, .bool _, h | .int _, .null, h | .int _, .enum _, h | .int _, .str _, h | .int _, .var _, h | .int _, .object _ _, h | .int _, .list _ _, h => by simp [beq] at h
+  | .float _, .int _, h | .float _, .bool _, h | .float _, .null, h | .float _, .enum _, h | .float _, .str _, h | .float _, .var _, h | .float _, .object _ _, h | .float _, .list _ _, h => by simp [beq] at h
+  | .bool _, .int _, h | .bool _, .float _, h | .bool _, .null, h | .bool _, .enum _, h | .bool _, .str _, h | .bool _, .var _, h | .bool _, .object _ _, h | .bool _, .list _ _, h => by simp [beq] at h
+  | .null, .int _, h | .null, .float _, h | .null, .bool _, h | .null, .enum _, h | .null, .str _, h | .null, .var _, h | .null, .object _ _, h | .null, .list _ _, h => by simp [beq] at h
+  | .enum _, .int _, h | .enum _, .float _, h | .enum _, .bool _, h | .enum _, .null, h | .enum _, .str _, h | .enum _, .var _, h | .enum _, .object _ _, h | .enum _, .list _ _, h => by simp [beq] at h
+  | .str _, .int _, h | .str _, .float _, h | .str _, .bool _, h | .str _, .null, h | .str _, .enum _, h | .str _, .var _, h | .str _, .object _ _, h | .str _, .list _ _, h => by simp [beq] at h
+  | .var _, .int _, h | .var _, .float _, h | .var _, .bool _, h | .var _, .null, h | .var _, .enum _, h | .var _, .str _, h | .var _, .object _ _, h | .var _, .list _ _, h => by simp [beq] at h
+  | .object _ _, .int _, h | .object _ _, .float _, h | .object _ _, .bool _, h | .object _ _, .null, h | .object _ _, .enum _, h | .object _ _, .str _, h | .object _ _, .var _, h | .object _ _, .list _ _, h => by simp [beq] at h
+  | .list _ _, .int _, h | .list _ _, .float _, h | .list _ _, .bool _, h | .list _ _, .null, h | .list _ _, .enum _, h | .list _ _, .str _, h | .list _ _, .var _, h | .list _ _, .object _ _, h => by simp [beq] at h
+theorem eq_of_beqFields : ∀ (a b : List (String × LV)), beqFields a b = true → a = b
+  | [], [], _ => rfl
+  | [], _ :: _, h => by simp [beqFields] at h
+  | _ :: _, [], h => by simp [beqFields] at h
+  | (k, v) :: r, (k', v') :: r', h => by
+    simp [beqFields] at h
+    obtain ⟨⟨h1, h2⟩, h3⟩ := h
+    rw [h1, eq_of_beq v v' h2, eq_of_beqFields r r' h3]
+theorem eq_of_beqList : ∀ (a b : List LV), beqList a b = true → a = b
+  | [], [], _ => rfl
+  | [], _ :: _, h => by simp [beqList] at h
+  | _ :: _, [], h => by simp [beqList] at h
+  | v :: r, v' :: r', h => by
+    simp [beqList] at h
+    rw [eq_of_beq v v' h.1, eq_of_beqList r r' h.2]
+end
+
+mutual
+theorem beq_self : ∀ (a : LV), beq a a = true
+  | .int _ | .float _ | .bool _ | .null | .enum _ | .str _ | .var _ => by simp [beq]
+  | .object _ a => by simp [beq, beqFields_self a]
+  | .list _ a => by simp [beq, beqList_self a]
+theorem beqFields_self : ∀ (a : List (String × LV)), beqFields a a = true
+  | [] => by simp [beqFields]
+  | (k, v) :: r => by simp [beqFields, beq_self v, beqFields_self r]
+theorem beqList_self : ∀ (a : List LV), beqList a a = true
+  | [] => by simp [beqList]
+  | v :: r => by simp [beqList, beq_self v, beqList_self r]
+end
+
+instance : DecidableEq LV := fun a b =>
+  if h : beq a b = true then isTrue (eq_of_beq a b h)
+  else isFalse (fun e => h (e ▸ beq_self a))
+
+mutual
+/-- every variable mentioned, in order of appearance, with duplicates -/
+def variables : LV → List String
+  | .var n => [n]
+  | .object _ fs => variablesFields fs
+  | .list _ vs => variablesList vs
+  | _ => []
+def variablesFields : List (String × LV) → List String
+  | [] => []
+  | (_, v) :: rest => variables v ++ variablesFields rest
+def variablesList : List LV → List String
+  | [] => []
+  | v :: rest => variables v ++ variablesList rest
+end
+
+mutual
+/-- `substitute_variables`: every variable, at any depth, replaced by `f variable`; nodes keep their sites -/
+def subst (f : String → LV) : LV → LV
+  | .var n => f n
+  | .object s fs => .object s (substFields f fs)
+  | .list s vs => .list s (substList f vs)
+  | v => v
+def substFields (f : String → LV) : List (String × LV) → List (String × LV)
+  | [] => []
+  | (k, v) :: rest => (k, subst f v) :: substFields f rest
+def substList (f : String → LV) : List LV → List LV
+  | [] => []
+  | v :: rest => subst f v :: substList f rest
+end
+
+end LV
+
+mutual
+/-- a value written at source occurrence `site` -/
+def ofValue (site : List Nat) : Value → LV
+  | .int i => .int i
+  | .float s => .float s
+  | .bool b => .bool b
+  | .null => .null
+  | .enum s => .enum s
+  | .str s => .str s
+  | .var s => .var s
+  | .object [] => .object [] []
+  | .object (f :: fs) => .object site (ofFields site (f :: fs))
+  | .list [] => .list [] []
+  | .list (v :: vs) => .list site (ofValues site (v :: vs))
+def ofFields (site : List Nat) : List (String × Value) → List (String × LV)
+  | [] => []
+  | (k, v) :: rest => (k, ofValue site v) :: ofFields site rest
+def ofValues (site : List Nat) : List Value → List LV
+  | [] => []
+  | v :: rest => ofValue site v :: ofValues site rest
+end
+
 /-! ### keys, node data -/
 
-/-- a selection argument after `into_key_and_value`: `site` identifies the source occurrence of a
-value that embeds source locations (`[]` for every other value) -/
+/-- a selection argument after `into_key_and_value` -/
 structure LArg where
   name : String
-  value : Value
-  site : List Nat
+  value : LV
   deriving DecidableEq, Repr, Inhabited
 
 /-- `NormalizationKey`, readable form -/
@@ -142,8 +293,10 @@ def encInt : Int → List Nat
   | .ofNat n => [0, n]
   | .negSucc n => [1, n]
 
+def encSite (s : List Nat) : List Nat := s.length :: s
+
 mutual
-def encValue : Value → List Nat
+def encValue : LV → List Nat
   | .int i => 0 :: encInt i
   | .float s => 1 :: encStr s
   | .bool b => [2, if b then 1 else 0]
@@ -151,21 +304,19 @@ def encValue : Value → List Nat
   | .enum s => 4 :: encStr s
   | .str s => 5 :: encStr s
   | .var s => 6 :: encStr s
-  | .object fs => 7 :: encFields fs
-  | .list vs => 8 :: encValues vs
-def encFields : List (String × Value) → List Nat
+  | .object site fs => 7 :: (encSite site ++ encFields fs)
+  | .list site vs => 8 :: (encSite site ++ encValues vs)
+def encFields : List (String × LV) → List Nat
   | [] => [0]
   | (k, v) :: rest => 1 :: (encStr k ++ encValue v ++ encFields rest)
-def encValues : List Value → List Nat
+def encValues : List LV → List Nat
   | [] => [0]
   | v :: rest => 1 :: (encValue v ++ encValues rest)
 end
 
-def encSite (s : List Nat) : List Nat := s.length :: s
-
 def encArgs : List LArg → List Nat
   | [] => [0]
-  | a :: rest => 1 :: (encStr a.name ++ encValue a.value ++ encSite a.site ++ encArgs rest)
+  | a :: rest => 1 :: (encStr a.name ++ encValue a.value ++ encArgs rest)
 
 def KeyK.enc : KeyK → Key
   | .discriminator => [0]
@@ -181,26 +332,24 @@ def buildMap (l : List Entry) : MergedMap := build pathLt l
 
 /-! ### variable contexts (variable_context.rs) -/
 
-/-- `VariableContext`: variable ↦ value (with the identity of the value's source occurrence) -/
-abbrev VarCtx := List (String × (Value × List Nat))
+/-- `VariableContext`: variable ↦ value -/
+abbrev VarCtx := List (String × LV)
 
-def ctxGet (c : VarCtx) (v : String) : Option (Value × List Nat) :=
+def ctxGet (c : VarCtx) (v : String) : Option LV :=
   match c.find? (·.1 == v) with
   | some e => some e.2
   | none => none
 
 /-- `initial_variable_context` -/
-def initialCtx (vars : List VarDef) : VarCtx := vars.map fun d => (d.name, (.var d.name, []))
+def initialCtx (vars : List VarDef) : VarCtx := vars.map fun d => (d.name, .var d.name)
 
-/-- `transform_selection_field_argument_into_merged_arg_with_child_context`: only an argument that IS
-a variable is replaced (variables inside objects and lists stay) -/
-def substArg (c : VarCtx) (a : LArg) : LArg :=
-  match a.value with
-  | .var v =>
-    match ctxGet c v with
-    | some (val, site) => ⟨a.name, val, site⟩
-    | none => ⟨a.name, .null, []⟩
-  | _ => a
+/-- what a variable stands for when arguments are transformed: its value in the context, `null` when the
+context does not have it -/
+def ctxVal (c : VarCtx) (v : String) : LV := (ctxGet c v).getD .null
+
+/-- `transform_selection_field_argument_into_merged_arg_with_child_context` (since af3b32d: every
+variable of the value, at any depth, is replaced) -/
+def substArg (c : VarCtx) (a : LArg) : LArg := ⟨a.name, a.value.subst (ctxVal c)⟩
 
 def substArgs (c : VarCtx) (as : List LArg) : List LArg := as.map (substArg c)
 
@@ -224,30 +373,21 @@ def substEntry (c : VarCtx) (pre : List KeyK) (e : Entry) : Entry :=
 map's iteration order (a node comes before the nodes below it) -/
 def substMap (c : VarCtx) (pre : List KeyK) (m : MergedMap) : List Entry := m.map (substEntry c pre)
 
-/-- does the value embed source locations?  (`{}` and `[]` do not) -/
-def isComposite : Value → Bool
-  | .object (_ :: _) | .list (_ :: _) => true
-  | _ => false
-
-/-- the first variable mentioned (`ConstantValue::try_from` fails with it) -/
-def firstVariable (v : Value) : Option String := v.variables.head?
-
-/-- `VariableContext::child_variable_context` for a selection that is not `@loadable`.
+/-- `VariableContext::child_variable_context` for a selection that is not `@loadable` (since af3b32d: the
+variables of a passed argument are replaced, at any depth, by the parent context's values).
 `declIdx`: the child's declaration (its default values live there).  `none` = Rust panics
 ("Parent context has missing variable"). -/
 def childCtx (c : VarCtx) (args : List LArg) (declIdx : Nat) : Nat → List VarDef → Option VarCtx
   | _, [] => some []
   | i, d :: rest =>
-    let here : Option (Value × List Nat) :=
+    let here : Option LV :=
       match args.find? (·.name == d.name) with
       | some a =>
-        match firstVariable a.value with
-        | none => some (a.value, a.site)
-        | some v => ctxGet c v
+        if a.value.variables.all (fun v => (ctxGet c v).isSome) then some (a.value.subst (ctxVal c)) else none
       | none =>
         match d.default with
-        | some dv => some (dv, if isComposite dv then [1, declIdx, i] else [])
-        | none => some (.null, [])
+        | some dv => some (ofValue [1, declIdx, i] dv)
+        | none => some .null
     match here, childCtx c args declIdx (i + 1) rest with
     | some x, some tail => some ((d.name, x) :: tail)
     | _, _ => none
@@ -267,12 +407,12 @@ inductive LSel where
 
 def locArgs (loc : List Nat) : Nat → List (String × Value) → List LArg
   | _, [] => []
-  | i, (n, v) :: rest => ⟨n, v, if isComposite v then loc ++ [i] else []⟩ :: locArgs loc (i + 1) rest
+  | i, (n, v) :: rest => ⟨n, ofValue (loc ++ [i]) v⟩ :: locArgs loc (i + 1) rest
 
 def locHead (loc : List Nat) (h : SelHead) : LHead := ⟨h.name, locArgs loc 0 h.args, h.directives⟩
 
 mutual
-/-- give every argument that embeds source locations the identity `loc ++ [argument index]`, where
+/-- give the list / object nodes of every argument the identity `loc ++ [argument index]`, where
 `loc` is the position of the selection: `[0, declaration index, index, index in kids, …]` -/
 def locSel (loc : List Nat) : Selection → LSel
   | .scalar h => .scalar (locHead loc h)
@@ -451,7 +591,7 @@ rank `Variable < Integer < Boolean < String < Float < Null < Enum < List < Objec
 inside an object every field NAME and every field value is a `WithEmbeddedLocation`, compared item first,
 then location — so two object literals with the same first field name are ordered by WHERE they were
 written before their values are even looked at.  Locations (`file, span of the literal, span inside it`) are
-ordered like the source positions `LArg.site` stands for.  None of the theorems depends on this order; the
+ordered like the source positions the `site` of a list / object node stands for.  None of the theorems depends on this order; the
 driver uses it to print a map the way the implementation iterates it. -/
 
 def cmpLex {α : Type} (cmp : α → α → Ordering) : List α → List α → Ordering
@@ -493,7 +633,7 @@ def cmpSite (p : Project) (a b : List Nat) : Ordering :=
      | o => o)
   | o => o
 
-def valueRank : Value → Nat
+def valueRankL : LV → Nat
   | .var _ => 0
   | .int _ => 1
   | .bool _ => 2
@@ -501,12 +641,11 @@ def valueRank : Value → Nat
   | .float _ => 4
   | .null => 5
   | .enum _ => 6
-  | .list _ => 7
-  | .object _ => 8
+  | .list .. => 7
+  | .object .. => 8
 
 mutual
-/-- `sc`: how the two occurrences compare (`eq`: the same occurrence) -/
-def cmpValue (sc : Ordering) : Value → Value → Ordering
+def cmpValue (p : Project) : LV → LV → Ordering
   | .var a, .var b => cmpStr a b
   | .int a, .int b => compare a b
   | .bool a, .bool b => cmpNat a.toNat b.toNat
@@ -514,18 +653,20 @@ def cmpValue (sc : Ordering) : Value → Value → Ordering
   | .float a, .float b => cmpStr a b
   | .null, .null => .eq
   | .enum a, .enum b => cmpStr a b
-  | .list a, .list b => cmpItems sc a b
-  | .object a, .object b => cmpFields sc a b
-  | a, b => cmpNat (valueRank a) (valueRank b)
-def cmpItems (sc : Ordering) : List Value → List Value → Ordering
+  | .list s a, .list s' b => cmpItems p (cmpSite p s s') a b
+  | .object s a, .object s' b => cmpFields p (cmpSite p s s') a b
+  | a, b => cmpNat (valueRankL a) (valueRankL b)
+/-- `sc`: how the occurrences of the two list nodes compare (the location of an item slot) -/
+def cmpItems (p : Project) (sc : Ordering) : List LV → List LV → Ordering
   | [], [] => .eq
   | [], _ :: _ => .lt
   | _ :: _, [] => .gt
   | x :: xs, y :: ys =>
-    match cmpValue sc x y with
-    | .eq => (match sc with | .eq => cmpItems sc xs ys | o => o)
+    match cmpValue p x y with
+    | .eq => (match sc with | .eq => cmpItems p sc xs ys | o => o)
     | o => o
-def cmpFields (sc : Ordering) : List (String × Value) → List (String × Value) → Ordering
+/-- `sc`: how the occurrences of the two object nodes compare (the location of a field name / value slot) -/
+def cmpFields (p : Project) (sc : Ordering) : List (String × LV) → List (String × LV) → Ordering
   | [], [] => .eq
   | [], _ :: _ => .lt
   | _ :: _, [] => .gt
@@ -533,14 +674,14 @@ def cmpFields (sc : Ordering) : List (String × Value) → List (String × Value
     match cmpStr k1 k2 with
     | .eq =>
       (match sc with
-       | .eq => (match cmpValue sc v1 v2 with | .eq => cmpFields sc xs ys | o => o)
+       | .eq => (match cmpValue p v1 v2 with | .eq => cmpFields p sc xs ys | o => o)
        | o => o)
     | o => o
 end
 
 def cmpArg (p : Project) (a b : LArg) : Ordering :=
   match cmpStr a.name b.name with
-  | .eq => cmpValue (cmpSite p a.site b.site) a.value b.value
+  | .eq => cmpValue p a.value b.value
   | o => o
 
 def keyRank : KeyK → Nat
